@@ -1562,6 +1562,9 @@ class Interp:
             return VStr(smt.Concat(*parts))
         if isinstance(e, ast.Tuple):
             return VTuple([self.eval(ctx, x, env, fi) for x in e.elts])
+        if isinstance(e, ast.Dict) and e.keys and all(isinstance(k, ast.Constant) and isinstance(k.value, str) for k in e.keys):
+            # a dict display with literal string keys is a lookup table (never mutated by the subset: stores into a dict are Unsupported)
+            return VConstDict([(k.value, self.eval(ctx, v, env, fi)) for k, v in zip(e.keys, e.values)])
         if isinstance(e, ast.List):
             lst = VList([self.eval(ctx, x, env, fi) for x in e.elts])
             ctx.ghost.setdefault("own_lists", {})[id(lst)] = lst  # built on this path: may be grown in place (module constants may not)
